@@ -127,6 +127,20 @@ PROPS["C02"] = dict(
     assumptions=["reference evaluator is right", "rule sets rejected by Check are discarded and counted (rate reported in labels)"],
     jobs=[job("scalar", "^TestScalarRules$", (4, 16), (2500, 30000), (600, 3000))],
 )
+PROPS["C03"] = dict(
+    pkg="c03", level="exploration",
+    technique="model-based differential testing: rapid-generated type graphs (<=6 user types + key types) printed to schema text, instance-then-mutate documents, independent denotational reference (set union / merged properties)",
+    level_text=("Bounded exploration of type graphs x documents: Validate's verdict is compared with a denotational reference in which a type list is the union of its members (plus null if nullable), "
+                "allOf is the transitive merge of property requirements, additionalProperties decides unnamed keys and a key shortcut admits the keys its string type accepts. Graphs that Check rejects "
+                "are discarded and counted. Sampled."),
+    level_note="trusted: harness/ref/compose.go + scalar.go; keys matching two shortcuts, rule-less key types, float kind with integer value under additionalProperties and `array`/`object` kind names in or-lists are not judged",
+    rule=("graphs: 1-6 user types (scalar types with ranges/lengths/regex/mixed enums; objects with literal keys, allOf chains, additionalProperties in every mode, one key-shortcut entry, optional self-recursion; arrays), "
+          "value positions @T, @A|@B[|@C], {type: \"@T\"}, {or: [type names, kind names, inline rule sets]}, nullable/optional; root under both key-optionality settings; documents: instances drawn per alternative "
+          "+ 0-2 structural mutations, and random JSON. non-trivial = the reference evaluation passed through a position with >=2 alternatives, an allOf-inherited key, an additionalProperties decision, "
+          "a key-shortcut match or a type-rule reference; distinct by (spec, document)"),
+    assumptions=["reference semantics is right", "graphs rejected by Check are outside the domain (counted under labels)"],
+    jobs=[job("composition", "^TestComposition$", (4, 16), (4000, 25000), (600, 3000))],
+)
 
 _UNBUILT = "check under construction in this session (see DESIGN.md section 5 for the planned design)"
 NOT_APPLICABLE = [dict(property_id="C%02d" % i, reason=_UNBUILT) for i in range(1, 20) if "C%02d" % i not in PROPS]
